@@ -149,6 +149,10 @@ func (s *ServerDnsListener) closeConnection(u *userConnection) error {
 	s.usersLock.Lock()
 	defer s.usersLock.Unlock()
 
+	if s.connections[u.UserId] != u {
+		// Connection already closed (its id may have been given to another connection since)
+		return nil
+	}
 	_, err := s.validateAndGetUser(u.UserId, u.remoteAddress)
 	if err == commands.BadUser {
 		// Connection already closed
